@@ -230,6 +230,9 @@ def generate(rng):
             op = {"op": "concat", "rs": [rng.choice(lv) for _ in range(rng.randint(1, 3))], "dst": rng.randrange(nreg), "plus": False}
             if len(op["rs"]) == 2 and rng.random() < 0.5:
                 op["plus"] = True
+            else:
+                # documented: an iterable of BondList objects
+                op["as"] = rng.choice(["list", "list", "tuple", "generator", "iter"])
         elif r < 0.85:
             op = {"op": "remove_bonds", "r": a, "r2": rng.choice(lv)}
         elif r < 0.89:
@@ -499,7 +502,12 @@ class Sim:
         if name == "concat":
             if op["plus"]:
                 return lambda: (R[op["rs"][0]] + R[op["rs"][1]], None)
-            return lambda: (BL.concatenate([R[r] for r in op["rs"]]), None)
+            def cat():
+                parts = [R[r] for r in op["rs"]]
+                how = op.get("as", "list")
+                arg = {"list": parts, "tuple": tuple(parts), "generator": (x for x in parts), "iter": iter(parts)}[how]
+                return BL.concatenate(arg), None
+            return cat
         if name == "remove_bonds":
             return lambda: (None, R[op["r"]].remove_bonds(R[op["r2"]]))
         if name == "offset":
